@@ -206,15 +206,27 @@ Section NodeFrame.
       exact (IH (Forall_inv_tail HQ) _ _ _ Hr).
   Qed.
 
+  Lemma conv_ubranches_frame n : forall bs, Forall Q bs -> forall i s0 rvs dn s1,
+    conv_ubranches cv n i bs s0 = Some (rvs, dn, s1) -> frame s0 s1.
+  Proof.
+    induction bs as [|b r IH]; intros HQ i s0 rvs dn s1 H; cbn [conv_ubranches] in H.
+    - injection H as _ _ <-. apply frame_refl.
+    - destruct (conv_xvar cv (NSuggested n) _ b s0) as [[[vd d1] sa]|] eqn:Hv; [|discriminate].
+      destruct (conv_ubranches cv n (S i) r sa) as [[[vs2 d2] s2]|] eqn:Hr; [|discriminate].
+      injection H as _ _ <-. eapply frame_trans; [exact (conv_xvar_frame _ _ _ _ _ _ _ (Forall_inv HQ) Hv)|].
+      exact (IH (Forall_inv_tail HQ) _ _ _ _ _ Hr).
+  Qed.
+
   Lemma conv_kind_frame k nm items props req ap oneo s0 te s1 :
-    Forall Q items -> Forall (fun kv => Q (snd kv)) props -> OForall Q ap -> OForall (Forall (PropP Q)) oneo ->
+    Forall Q items -> Forall (fun kv => Q (snd kv)) props -> OForall Q ap ->
+    OForall (Forall (fun b => Q b /\ PropP Q b)) oneo ->
     conv_kind cls rid cv k nm items props req ap oneo s0 = Some (te, s1) -> frame s0 s1.
   Proof.
-    intros HQi HQp HQa HQo.
+    intros HQi HQp HQa HQo0. destruct (arms_props Q oneo HQo0) as [HQo HQoB].
     destruct k as [| | | |mx mn pat|r|raws|deny| | |c|c|r| |tg]; cbn [conv_kind];
       try (intro H; injection H as _ <-; apply frame_refl).
-    10: { destruct tg as [|tg|tg ct|]; try discriminate; (destruct (type_name cls nm); [|discriminate]);
-            (destruct oneo as [bs|]; [|discriminate]).
+    10: { destruct tg as [|tg|tg ct|]; (destruct (type_name cls nm); [|discriminate]);
+            (destruct oneo as [bs|]; [|discriminate]); cbn [OForall] in HQo, HQoB.
           - destruct (conv_xbranches cv nm bs s0) as [[[rvs deny] sa]|] eqn:Hb; [|discriminate].
             destruct (mk_tagged cls u TagExternal rvs deny); [|discriminate]. intro H. injection H as _ <-.
             exact (conv_xbranches_frame _ _ HQo _ _ _ _ Hb).
@@ -223,7 +235,11 @@ Section NodeFrame.
             exact (conv_ibranches_frame _ _ _ HQo _ _ _ Hb).
           - destruct (conv_abranches cv nm tg ct bs s0) as [[[rvs deny] sa]|] eqn:Hb; [|discriminate].
             destruct (mk_tagged cls u (TagAdjacent tg ct) rvs deny); [|discriminate]. intro H. injection H as _ <-.
-            exact (conv_abranches_frame _ _ _ _ HQo _ _ _ _ Hb). }
+            exact (conv_abranches_frame _ _ _ _ HQo _ _ _ _ Hb).
+          - destruct (conv_ubranches cv u 0 bs s0) as [[[rvs deny] sa]|] eqn:Hb; [|discriminate].
+            destruct (_ <=? _)%nat; [discriminate|].
+            destruct (mk_tagged cls u TagUntagged rvs deny); [|discriminate]. intro H. injection H as _ <-.
+            exact (conv_ubranches_frame _ _ HQoB _ _ _ _ _ Hb). }
     - destruct (assign DString _) as [sid sa] eqn:Ha. destruct (type_name cls nm); [|discriminate].
       intro H. injection H as _ <-. pose proof (assign_frame _ _ _ _ Ha) as F.
       destruct pat; [eapply frame_trans; [apply frame_set_regress|exact F]|exact F].
@@ -253,7 +269,8 @@ Section NodeFrame.
   Qed.
 
   Lemma conv_node_frame c nm items props req ap oneo s0 te s1 :
-    Forall Q items -> Forall (fun kv => Q (snd kv)) props -> OForall Q ap -> OForall (Forall (PropP Q)) oneo ->
+    Forall Q items -> Forall (fun kv => Q (snd kv)) props -> OForall Q ap ->
+    OForall (Forall (fun b => Q b /\ PropP Q b)) oneo ->
     conv_node cls rid cv c nm items props req ap oneo s0 = Some (te, s1) -> frame s0 s1.
   Proof.
     intros HQi HQp HQa HQo.
@@ -652,16 +669,28 @@ Section NodeExt.
     rewrite (IH (Forall_inv_tail HQ)). reflexivity.
   Qed.
 
+  Lemma conv_ubranches_ext n : forall bs, Forall Q bs -> forall i s0,
+    conv_ubranches cv1 n i bs s0 = conv_ubranches cv2 n i bs s0.
+  Proof.
+    induction bs as [|b r IH]; intros HQ i s0; cbn [conv_ubranches]; [reflexivity|].
+    unfold conv_xvar. rewrite (Hcv _ (Forall_inv HQ)).
+    destruct (cv2 b _ s0) as [[te sa]|]; [|reflexivity].
+    destruct te; try (destruct (assign _ sa) as [t9 s9]); rewrite (IH (Forall_inv_tail HQ)); reflexivity.
+  Qed.
+
   Lemma conv_kind_ext k nm items props req ap oneo s0 :
-    Forall Q items -> Forall (fun kv => Q (snd kv)) props -> OForall Q ap -> OForall (Forall (PropP Q)) oneo ->
+    Forall Q items -> Forall (fun kv => Q (snd kv)) props -> OForall Q ap ->
+    OForall (Forall (fun b => Q b /\ PropP Q b)) oneo ->
     conv_kind cls rid cv1 k nm items props req ap oneo s0 = conv_kind cls rid cv2 k nm items props req ap oneo s0.
   Proof.
-    intros HQi HQp HQa HQo. destruct k; cbn [conv_kind]; try reflexivity.
-    5: { destruct tg as [|tg|tg ct|]; try reflexivity; (destruct (type_name cls nm); [|reflexivity]);
-           (destruct oneo as [bs|]; [|reflexivity]).
+    intros HQi HQp HQa HQo0. destruct (arms_props Q oneo HQo0) as [HQo HQoB].
+    destruct k; cbn [conv_kind]; try reflexivity.
+    5: { destruct tg as [|tg|tg ct|]; (destruct (type_name cls nm); [|reflexivity]);
+           (destruct oneo as [bs|]; [|reflexivity]); cbn [OForall] in HQo, HQoB.
          - rewrite (conv_xbranches_ext _ _ HQo). reflexivity.
          - rewrite (conv_ibranches_ext _ _ _ HQo). reflexivity.
-         - rewrite (conv_abranches_ext _ _ _ _ HQo). reflexivity. }
+         - rewrite (conv_abranches_ext _ _ _ _ HQo). reflexivity.
+         - rewrite (conv_ubranches_ext _ _ HQoB). reflexivity. }
     - destruct (type_name cls nm); [|reflexivity]. rewrite (conv_props_ext _ _ _ HQp). reflexivity.
     - destruct (assign DString s0). destruct ap as [vs|]; [|reflexivity]. rewrite (Hcv _ HQa). reflexivity.
     - rewrite (conv_items_ext _ _ HQi). reflexivity.
@@ -669,7 +698,8 @@ Section NodeExt.
   Qed.
 
   Lemma conv_node_ext c nm items props req ap oneo s0 :
-    Forall Q items -> Forall (fun kv => Q (snd kv)) props -> OForall Q ap -> OForall (Forall (PropP Q)) oneo ->
+    Forall Q items -> Forall (fun kv => Q (snd kv)) props -> OForall Q ap ->
+    OForall (Forall (fun b => Q b /\ PropP Q b)) oneo ->
     conv_node cls rid cv1 c nm items props req ap oneo s0 = conv_node cls rid cv2 c nm items props req ap oneo s0.
   Proof.
     intros HQi HQp HQa HQo. destruct c as [[[|] k]|]; cbn [conv_node]; [| |reflexivity];
